@@ -38,6 +38,7 @@ from batchie.data import Screen  # noqa: E402
 from batchie import retrospective as R  # noqa: E402
 
 PROP = "C12"
+EPILOGUE_ITEMS = 2
 LEVEL = "model_checking"
 ENGINE = "E3-state-bfs+E1-input-enumeration"
 TECHNIQUE = "explicit-state BFS to fixpoint over operation histories on real Screens vs a bitset-per-plate reference"
